@@ -41,7 +41,7 @@ def _fresh():
 
 def _assigned_params(fn):
     out = set()
-    for e in ir.all_exprs(fn['body']) if hasattr(ir, 'all_exprs') else _all_exprs(fn['body']):
+    for e in _all_exprs(fn['body']):
         for x in ir.walk(e):
             if x[0] == 'assign' and ir.top_nocast(x[2])[0] == 'param':
                 out.add(ir.top_nocast(x[2])[2])
